@@ -46,9 +46,35 @@ func TestVerifC07(t *testing.T) {
 			t.Fatal(err)
 		}
 		res := map[string]any{"i": i}
-		p, msg := vCatch(func() {
-			synctest.Test(t, func(t *testing.T) { c07Run(c, res) })
-		})
+		// the history runs in its own goroutine under a REAL-time limit: a goroutine that waits for a sync.Mutex whose
+		// holder sleeps on the fake clock (or that spins) is not durably blocked, so synctest neither advances the
+		// clock nor reports a deadlock, and the bubble would sit there until go test's own timeout
+		type fin struct {
+			p   bool
+			msg string
+		}
+		ch := make(chan fin, 1)
+		go func(c c07Case, res map[string]any) {
+			p, msg := vCatch(func() {
+				synctest.Test(t, func(t *testing.T) { c07Run(c, res) })
+			})
+			ch <- fin{p, msg}
+		}(c, res)
+		p, msg, hung := false, "", false
+		lim := time.NewTimer(c07HangLimit)
+		select {
+		case f := <-ch:
+			p, msg = f.p, f.msg
+		case <-lim.C:
+			hung = true
+		}
+		lim.Stop()
+		if hung {
+			// the bubble is abandoned (its goroutines stay parked); res may still be referenced by it
+			res = map[string]any{"i": i, "ok": false, "hang": true,
+				"why": fmt.Sprintf("the history did not finish within %v of real time: some goroutine of the session manager waits for a lock "+
+					"that is never released, or for one whose holder cannot proceed (not a durable block, so synctest cannot call it a deadlock)", c07HangLimit)}
+		}
 		if p {
 			prev, _ := res["why"].(string)
 			res["ok"] = false
@@ -68,6 +94,8 @@ func TestVerifC07(t *testing.T) {
 }
 
 var c07Pauser *vfPauser // lives outside the bubbles
+
+const c07HangLimit = 45 * time.Second
 
 func c07Run(c c07Case, res map[string]any) {
 	env := newVFEnv()
